@@ -2,6 +2,7 @@ package main
 
 import (
 	"fmt"
+	"sort"
 	"go/constant"
 	"go/token"
 	"go/types"
@@ -246,6 +247,15 @@ func (ev *evaluator) object(o types.Object) Val {
 
 func (ev *evaluator) unary(x *EUn) Val {
 	c := ev.c()
+	if x.Op == "&" {
+		// address of a local that lives in the object heap
+		if id, ok := x.X.(*EIdent); ok && ev.frame != nil {
+			if p := ev.frame.lookupHeapLocal(id.Name, ev.pos); p != nil {
+				return Val{ptr: p, t: p.ref, typ: types.NewPointer(p.base)}
+			}
+		}
+		ev.fail("& is only supported on local variables whose address is taken in the code")
+	}
 	v := ev.eval(x.X)
 	switch x.Op {
 	case "!":
@@ -632,11 +642,16 @@ func withTriggers(body *T, bound []string) *T {
 			}
 			if ok {
 				for _, a := range t.args {
-					if len(a.args) == 0 && isBound[a.op] {
-						key := a.op + "|" + t.String()
+					// the bound variable itself, or a selector chain applied to it (sl-off s, S.f x, ...)
+					b := a
+					for len(b.args) == 1 && isSelectorOp(b.op) {
+						b = b.args[0]
+					}
+					if len(b.args) == 0 && isBound[b.op] {
+						key := b.op + "|" + t.String()
 						if !seen[key] {
 							seen[key] = true
-							cands[a.op] = append(cands[a.op], t)
+							cands[b.op] = append(cands[b.op], t)
 						}
 					}
 				}
@@ -651,6 +666,11 @@ func withTriggers(body *T, bound []string) *T {
 		if len(cands[b]) == 0 {
 			return body
 		}
+	}
+	// prefer small trigger terms
+	for _, b := range bound {
+		cs := cands[b]
+		sort.SliceStable(cs, func(i, j int) bool { return cs[i].size(1000) < cs[j].size(1000) })
 	}
 	// one pattern per choice of the first variable's candidates (up to 3), covering the other variables with their first candidate
 	var pats []string
@@ -691,9 +711,13 @@ func withTriggers(body *T, bound []string) *T {
 	return &T{op: "!", args: []*T{body, atom(strings.Join(pats, " "), "Attr")}, sort: "Bool"}
 }
 
+func isSelectorOp(op string) bool {
+	return strings.HasPrefix(op, "sl-") || strings.HasPrefix(op, "S_") || strings.HasPrefix(op, "t-")
+}
+
 func triggerHead(op string) bool {
 	switch op {
-	case "ix", "bitof", "setbit", "slen", "sbyte":
+	case "ix", "bitof", "setbit", "slen", "sbyte", "select":
 		return true
 	}
 	for _, p := range []string{"op_", "sf_", "sq_", "applyfn_"} {
@@ -803,6 +827,19 @@ func (ev *evaluator) call(x *ECall) Val {
 	case "sameArray":
 		a, b := ev.eval(x.Args[0]), ev.eval(x.Args[1])
 		return Val{t: mkAnd(mkEq(c.slRef(a.t), c.slRef(b.t)), mkEq(c.slOff(a.t), c.slOff(b.t))), typ: types.Typ[types.Bool]}
+	case "str":
+		// str(b): the string with the bytes of slice b (Go's string(b))
+		a := ev.eval(x.Args[0])
+		if _, ok := a.typ.Underlying().(*types.Slice); !ok {
+			ev.fail("str needs a []byte")
+		}
+		return Val{t: ev.x.bytesToString(ev.st, a.t), typ: types.Typ[types.String]}
+	case "offOf":
+		a := ev.eval(x.Args[0])
+		if _, ok := a.typ.Underlying().(*types.Slice); !ok {
+			ev.fail("offOf needs a slice")
+		}
+		return Val{t: c.slOff(a.t), typ: types.Typ[types.Int]}
 	case "refOf":
 		a := ev.eval(x.Args[0])
 		if _, ok := a.typ.Underlying().(*types.Slice); ok {
@@ -979,7 +1016,7 @@ func (ev *evaluator) applySpec(sf *specFunc, args []Expr) Val {
 				qcounter++
 				k := atom(fmt.Sprintf("k!%d", qcounter), c.intSort())
 				intT := types.Typ[types.Int]
-				idx := c.arith(token.ADD, c.slOff(v.t), k, intT, nil)
+				idx := c.ix(c.slOff(v.t), k)
 				body := mkIte(mkAnd(c.cmp(token.LEQ, c.I(0), k, intT), c.cmp(token.LSS, k, c.slLen(v.t), intT)), app("select", es, arr, idx), c.zero(sl.Elem()))
 				lam := app(fmt.Sprintf("lambda ((%s %s))", k.op, k.sort), arraySort(c.intSort(), es), body)
 				sorts = append(sorts, lam.sort, c.intSort())
@@ -1093,12 +1130,17 @@ func (ev *evaluator) genericAxiom(ax *axiomDecl) *T {
 	}
 	n := ev
 	var decl []string
+	var preWF []*T
 	for _, b := range q.Vars {
 		t := ev.resolveType(b.Type)
 		qcounter++
 		a := atom(fmt.Sprintf("%s!q%d", sanitize(b.Name), qcounter), c.sortOf(t))
 		n = n.bind(b.Name, Val{t: a, typ: t})
 		decl = append(decl, fmt.Sprintf("(%s %s)", a.op, a.sort))
+		// the axiom speaks about well-formed Go values only (e.g. 0 <= len <= cap for slices)
+		if _, isInt := t.Underlying().(*types.Basic); !isInt {
+			preWF = append(preWF, c.valueWF(a, t))
+		}
 	}
 	syn := newState()
 	n = n.with(syn)
@@ -1122,6 +1164,11 @@ func (ev *evaluator) genericAxiom(ax *axiomDecl) *T {
 		}
 	}
 	body := n.evalBool(q.Body)
-	body = mkImp(mkAnd(wf...), body)
+	body = mkImp(mkAnd(append(preWF, wf...)...), body)
+	var bound []string
+	for _, d := range decl {
+		bound = append(bound, strings.Fields(strings.Trim(d, "()"))[0])
+	}
+	body = withTriggers(body, bound)
 	return app("forall ("+strings.Join(decl, " ")+")", "Bool", body)
 }
